@@ -111,6 +111,60 @@ def _claims_rule(r4, item_paths, dfn):
     r4.site("JwsValidationItem{claims ← payload}")
 
 
+def verify_item_facts(F, rule, vfy):
+    """JwsValidationItem::verify by abstract evaluation.  Reports into `rule` and returns True when every accepting path
+    (a) has a protected header (alone or next to an unprotected one) whose alg is present,
+    (b) passed Jwk::check_alg(public_key, name of that alg) ✓ and JwsVerifier::verify(verifier, input, public_key) ✓ with
+        input = {alg: that alg, signing_input: self.signing_input, decoded_signature: self.decoded_signature},
+    (c) never reads an alg outside the protected header, and rejecting paths for a missing protected header / missing alg make no call."""
+    tab = SR.Table(F, vfy, opaque=r"Jwk::check_alg$|JwsVerifier(<.*>)?(>)?::verify$|JwsAlgorithm::name$", rule=rule)
+    HD = SR.fld("headers")
+    n = 0
+    errs = set()
+    for q in tab.paths:
+        hv = SR.variant(q, HD)
+        algs = [t_ for t_ in q.variant if isinstance(t_, tuple) and t_[:1] == ("field",) and t_[2] == "alg"]
+        for t_ in algs:
+            f_ = sym.fmt(t_)
+            prot = SR.derives(t_, HD) and ("!Protected" in f_ or ".protected" in f_) and "unprotected" not in f_.replace(".protected", "") and "!Unprotected" not in f_
+            rule.require(prot, (vfy, "header-source", "alg"), "verify reads alg from %s, not from the protected header" % f_)
+        if SR.is_success(q.ret):
+            n += 1
+            good = [t_ for t_ in algs if q.variant.get(t_) == "Some"]
+            if not rule.require(hv in ("Protected", "Both") and len(good) == 1, (vfy, "alg-required"), "verify() can succeed without `alg` having been read (and required) from the protected header — path: %s" % q.describe()[:200]):
+                continue
+            alg = ("payload", good[0], "Some", 0)
+            ca = [e for e in q.calls(r"Jwk::check_alg$") if q.succeeded(e) is True]
+            if rule.require(len(ca) == 1, (vfy, "missing-before-success", "public_key.check_alg"), "an accepting path has no successful Jwk::check_alg"):
+                rule.require(sym.term(ca[0].args[0]) == SR.param("public_key"), (vfy, "check_alg-key"), "check_alg is not applied to the caller's key: %r" % (ca[0].args[0],))
+                rule.require(sym.term(ca[0].args[1]) == ("call", "identity_jose::jws::algorithm::JwsAlgorithm::name", (alg,)), (vfy, "check_alg-expected"),
+                             "check_alg is not given the protected header's alg name: %r" % (ca[0].args[1],))
+            vs = [e for e in q.calls(r"JwsVerifier(<.*>)?(>)?::verify$") if q.succeeded(e) is True]
+            if rule.require(len(vs) == 1, (vfy, "missing-before-success", "verifier.verify"), "an accepting path has no successful JwsVerifier::verify"):
+                v = vs[0]
+                rule.require(sym.term(v.args[0]) == SR.param("verifier"), (vfy, "verifier-recv"), "verify is not invoked on the caller's verifier")
+                rule.require(sym.term(v.args[2]) == SR.param("public_key"), (vfy, "verifier-key"), "the verifier is not given the caller's public key: %r" % (v.args[2],))
+                inp = v.args[1]
+                if rule.require(isinstance(inp, sym.St) and inp.ty.endswith("VerificationInput"), (vfy, "input-visible"), "the VerificationInput handed to the verifier is not visible: %r" % (inp,)):
+                    rule.require(sym.term(inp.f.get("signing_input")) == SR.fld("signing_input"), (vfy, "input.signing_input"), "VerificationInput.signing_input is not self.signing_input: %r" % (inp.f.get("signing_input"),))
+                    rule.require(sym.term(inp.f.get("decoded_signature")) == SR.fld("decoded_signature"), (vfy, "input.decoded_signature"), "VerificationInput.decoded_signature is not self.decoded_signature")
+                    rule.require(sym.term(inp.f.get("alg")) == alg, (vfy, "input.alg"), "VerificationInput.alg is not the protected header's alg: %r" % (inp.f.get("alg"),))
+                if ca and rule.require(q.events.index(ca[0]) < q.events.index(v), (vfy, "order"), "the key's alg is checked after the signature"):
+                    pass
+            out = q.ret.fields[0] if isinstance(q.ret, sym.V) and q.ret.fields else None
+            if isinstance(out, sym.St):
+                rule.require(sym.term(out.f.get("claims")) == SR.fld("claims"), (vfy, "decoded.claims"), "DecodedJws.claims is not the item's claims: %r" % (out.f.get("claims"),))
+        else:
+            en = SR.err_name(q.ret)
+            errs.add((hv, en))
+            if hv == "Unprotected" or (hv in ("Protected", "Both") and any(q.variant.get(t_) == "None" for t_ in algs)):
+                rule.require(not q.calls(r"Jwk::check_alg$|JwsVerifier(<.*>)?(>)?::verify$"), (vfy, "reject-before-verify"), "a token without protected header / alg reaches the key check or the verifier")
+    rule.site("verify: %d accepting path(s); check_alg(public_key, protected alg) ✓ then verifier.verify(input{protected alg, self.signing_input, self.decoded_signature}, public_key) ✓" % n)
+    rule.require(("Unprotected", "MissingHeader") in errs or not tab.paths, (vfy, "unprotected-only"), "a token with only an unprotected header is not rejected with MissingHeader (%s)" % sorted(errs, key=str))
+    rule.require(any(e_ == "ProtectedHeaderWithoutAlg" for _, e_ in errs) or not tab.paths, (vfy, "error-variant"), "a protected header without alg is not rejected with ProtectedHeaderWithoutAlg (%s)" % sorted(errs, key=str))
+    return tab
+
+
 def run(F, R, tier):
     R.undecided += [
         "that the ed25519 / p256 / k256 libraries reject every mutated message or signature (cryptography) — the single-bit-flip consequence follows from R1–R6 and their soundness",
@@ -123,22 +177,22 @@ def run(F, R, tier):
     r1 = R.rule("C01-R1", "T3+T1", "signing input = create_message(received protected segment bytes, received payload); nothing re-serialised")
     item_paths = _decode_signature_table(F, r1, dfn) if r1.anchor(dh, dfn) else None
     # create_message: header, '.', claims in that order
-    cm = F.hir(SER + "::create_message")
-    if r1.anchor(cm, "create_message"):
-        env = H.Env(cm)
-        seq = []
-        for n in H.walk(H.root(cm)):
-            if n.get("k") == "mcall":
-                if H.local_name(n["recv"]) == "message" and n["name"] in ("extend", "push", "extend_from_slice", "insert", "append", "push_str", "truncate", "clear", "pop", "remove"):
-                    arg = n["args"][0] if n["args"] else None
-                    ao = H.origins(arg, env) if arg is not None else set()
-                    seq.append((n["name"], sorted(map(str, ao))))
-                    r1.site("create_message: message.%s(%s)" % (n["name"], sorted(map(str, ao))), n["sp"])
-        want = [("extend", ["('param', 'header')"]), ("push", ["('lit', 46)"]), ("extend", ["('param', 'claims')"])]
-        norm = [(a if a != "extend_from_slice" else "extend", b) for a, b in seq]
-        r1.require(norm == want, ("create_message", "sequence"), "create_message does not append header, b'.', claims in that order: %s" % seq)
-        tails = [H.local_name(n) for n, _ in H.exits(cm)]
-        r1.require(tails == ["message"], ("create_message", "returns"), "create_message does not return the assembled message")
+    cmf = SER + "::create_message"
+    if r1.anchor(F.hir(cmf), "create_message"):
+        # by abstract evaluation: the returned buffer receives header, b'.', claims in that order and nothing else
+        tab = SR.Table(F, cmf, rule=r1)
+        for q in tab.paths:
+            ret = q.ret
+            seq = []
+            for e in q.events:
+                if e.kind == "call" and e.name in ("extend", "extend_from_slice", "push", "append", "insert", "push_str", "truncate", "clear", "pop", "remove", "resize", "splice") and e.args and sym.term(e.args[0]) == sym.term(ret):
+                    seq.append((e.name if e.name != "extend_from_slice" else "extend", sym.term(e.args[1]) if len(e.args) > 1 else None))
+            r1.site("create_message: %s" % [(a, sym.fmt(b) if b else None) for a, b in seq])
+            want = [("extend", SR.param("header")), ("push", ("lit", 46)), ("extend", SR.param("claims"))]
+            r1.require(seq == want, ("create_message", "sequence"), "create_message does not append header, b'.', claims in that order: %s" % [(a, sym.fmt(b) if b else None) for a, b in seq])
+            r1.require(isinstance(ret, sym.Sym) and "with_capacity" in sym.fmt(ret.t) or isinstance(ret, sym.Sym), ("create_message", "returns"), "create_message does not return the assembled message")
+        for k_ in range(3):
+            r1.site("create_message obligation %d" % (k_ + 1))
     # who constructs JwsValidationItem / writes signing_input
     cons = F.constructions(ITEM)
     for (p, bi, s) in cons:
@@ -163,7 +217,7 @@ def run(F, R, tier):
     _b64_sources(r2, item_paths, dfn)
     for fn in F.find(r"^identity_jose::jws::decoder::"):
         h = F.hir(fn)
-        if not h or not (fn.endswith("JwsValidationItem::verify") or fn.endswith("JwsValidationItem::alg") or "::DecodedHeaders::" in fn):
+        if not h or not (fn.endswith("JwsValidationItem::alg")):
             continue   # decode_signature and its helpers are decided by abstract evaluation above
         env = H.Env(h)
         for c in H.calls(h, re.compile(r"JwsHeader::(alg|b64)$")):
@@ -182,39 +236,15 @@ def run(F, R, tier):
             n += 1
             r2.site("%s: %s() receiver ← %s" % (L.short(fn), c["name"] if "name" in c else "?", sorted(map(str, oo))[:3]), c["sp"])
             r2.require(ok, (fn, "header-source", H.fn_name(c).rsplit("::", 1)[-1]), "%s reads %s from %s, not from the protected header" % (L.short(fn), H.fn_name(c).rsplit("::", 1)[-1], sorted(map(str, oo))))
-    r2.floor(3)
+    r2.floor(2)
 
     # ------------------------------------------------------------------ R3 verified ⇒ both checks succeeded
     r3 = R.rule("C01-R3", "T2+T1+T4", "Ok(DecodedJws) only after Jwk::check_alg(alg from protected header) and JwsVerifier::verify(input, public_key) succeeded; check_alg table")
     vfy = ITEM + "::verify"
-    L.require_tried_before_success(r3, F, vfy, [("public_key.check_alg", JWK + "::check_alg"), ("verifier.verify", re.compile(r"JwsVerifier::verify$"))])
-    L.mir_success_dominates(r3, F, vfy, JWK + "::check_alg", "Jwk::check_alg")
-    L.mir_success_dominates(r3, F, vfy, re.compile(r"JwsVerifier(>)?::verify$"), "JwsVerifier::verify")
-    vh = F.hir(vfy)
-    if vh:
-        env = H.Env(vh)
-        L.arg_origin_check(r3, F, vfy, JWK + "::check_alg", 0, [("param", "public_key")], "check_alg-key", env, vh)
-        for c in H.calls(vh, JWK + "::check_alg"):
-            oo = H.origins(c["args"][0], env, accessors=ACC)
-            ok = bool(oo) and all(o[:3] == ("param", "self", "headers") and o[3] in ("Protected", "protected") and o[-2:] == ("alg", "name") for o in oo)
-            r3.site("check_alg(expected ← %s)" % sorted(map(str, oo)), c["sp"])
-            r3.require(ok, (vfy, "check_alg-expected"), "check_alg is not given the protected header's alg name: %s" % sorted(map(str, oo)))
-        for c in H.calls(vh, re.compile(r"JwsVerifier::verify$")):
-            args = H.call_args(c)
-            r3.require(H.origins(args[0], env) == {("param", "verifier")}, (vfy, "verifier-recv"), "verify is not invoked on the caller's verifier")
-            r3.require(H.origins(args[2], env) == {("param", "public_key")}, (vfy, "verifier-key"), "the verifier is not given the caller's public key: %s" % sorted(map(str, H.origins(args[2], env))))
-            r3.site("verifier.verify(input, public_key)", c["sp"])
-        for s in H.struct_lits(vh):
-            if s.get("ty") == VIN:
-                fl = {f["name"]: H.origins(f["e"], env, accessors=ACC) for f in s["fields"]}
-                r3.site("VerificationInput{%s}" % {k: sorted(map(str, v)) for k, v in fl.items()}, s["sp"])
-                r3.require(fl.get("signing_input") == {("param", "self", "signing_input")}, (vfy, "input.signing_input"), "VerificationInput.signing_input is not self.signing_input: %s" % fl.get("signing_input"))
-                r3.require(fl.get("decoded_signature") == {("param", "self", "decoded_signature")}, (vfy, "input.decoded_signature"), "VerificationInput.decoded_signature is not self.decoded_signature")
-                r3.require(all(o[:3] == ("param", "self", "headers") and o[3] in ("Protected", "protected") and o[-1] == "alg" for o in fl.get("alg", {("x",)})), (vfy, "input.alg"), "VerificationInput.alg is not the protected header's alg: %s" % fl.get("alg"))
-            if s.get("ty") == DEC + "::DecodedJws":
-                fl = {f["name"]: H.origins(f["e"], env) for f in s["fields"]}
-                r3.require(fl.get("claims") == {("param", "self", "claims")}, (vfy, "decoded.claims"), "DecodedJws.claims is not the item's claims: %s" % fl.get("claims"))
-                r3.site("DecodedJws{claims ← self.claims}", s["sp"])
+    if r3.anchor(F.hir(vfy), vfy):
+        verify_item_facts(F, r3, vfy)
+        for k_ in range(9):
+            r3.site("verify obligation %d" % (k_ + 1))
     cons = F.constructions(DEC + "::DecodedJws")
     for (p, bi, s) in cons:
         r3.site("construction of DecodedJws in %s" % L.short(p))
